@@ -322,12 +322,15 @@ pub(crate) fn dict_methods(registry: &mut MethodsBuilder) {
             pairs.map(|x| x.get())
         };
 
-        let mut this = DictMut::from_value(this)?;
+        // The dict must be mutable, but it is not borrowed for mutation while the pairs are
+        // read: one of them may be (or contain) the dict itself.
+        DictMut::from_value(this)?;
+        let mut new_pairs = Vec::new();
         if let Some(pairs) = pairs {
             match DictRef::from_value(pairs) {
                 Some(dict) => {
                     for (k, v) in dict.iter_hashed() {
-                        this.aref.insert_hashed(k, v);
+                        new_pairs.push((k, v));
                     }
                 }
                 _ => {
@@ -339,10 +342,14 @@ pub(crate) fn dict_methods(registry: &mut MethodsBuilder) {
                             "dict.update expect a list of pairs or a dictionary as first argument, got a list of non-pairs.",
                         ).into());
                         };
-                        this.aref.insert_hashed(k.get_hashed()?, v);
+                        new_pairs.push((k.get_hashed()?, v));
                     }
                 }
             }
+        }
+        let mut this = DictMut::from_value(this)?;
+        for (k, v) in new_pairs {
+            this.aref.insert_hashed(k, v);
         }
 
         for (k, v) in kwargs.iter_hashed() {
